@@ -8,10 +8,11 @@
    precision") and `iso k (isoformat v) = Some v`.  The harness audits these premises by
    sampling with the real functions and feeds their answers to the model as oracle tables.
 
-   Finding F26 (open): default engine, time target, pattern containing '-' or '+': a string
-   that is neither ISO nor matches the pattern is not rejected (base class: the field
-   becomes None; subclass: bare AttributeError).  `C17_reject_partial` excludes exactly that
-   region, `C17_refuted_time_dash` exhibits it; v1 (`C17_reject_v1`) has no exception. *)
+   History: findings F26 (default engine, time pattern containing '-' / '+': junk was not
+   rejected) and F27 (v1: a pattern was not scoped to its own field) were found by this
+   check and repaired in /repo (commits 29e7967, c34737b); the model is the repaired
+   behaviour.  The harness keeps eight patterned fields per class, so both regressions
+   are caught with concrete inputs. *)
 From DW Require Import PyStr PatModel PatProofs.
 
 Section C17.
@@ -121,23 +122,22 @@ Theorem C17_reject_v1 :
   load1 iso strp k cls tzo ps s = ParseErr ps.
 Proof. exact (reject1 iso strp). Qed.
 
-(* default engine. Missing: time targets whose pattern contains '-' or '+' (finding F26) *)
-Theorem C17_reject_partial :
+Theorem C17_reject :
   forall k cls p s,
-  iso k (iso_arg k s) = None -> strp p s = None -> dash_time k p = false ->
+  iso k (iso_arg k s) = None -> strp p s = None ->
   load0 iso strp k cls p s = ParseErr [p].
 Proof. exact (reject0 iso strp). Qed.
 
 (* ---- element-wise in containers ------------------------------------------------------------------ *)
 Theorem C17_elementwise :
   forall (f : pstr -> outcome) (g : pstr -> val) l,
-  (forall s, In s l -> f s = Loaded (g s)) -> load_elems f l = inl (map (fun s => Some (g s)) l).
+  (forall s, In s l -> f s = Loaded (g s)) -> load_elems f l = inl (map g l).
 Proof. exact elems_all. Qed.
 
 Theorem C17_elementwise_error :
-  forall (f : pstr -> outcome) l1 s l2 e,
-  (forall x, In x l1 -> exists v, f x = Loaded v) -> f s = e -> (forall v, e <> Loaded v) -> e <> RetNone ->
-  load_elems f (l1 ++ s :: l2) = inr e.
+  forall (f : pstr -> outcome) l1 s l2 ps,
+  (forall x, In x l1 -> exists v, f x = Loaded v) -> f s = ParseErr ps ->
+  load_elems f (l1 ++ s :: l2) = inr (ParseErr ps).
 Proof. exact elems_first_error. Qed.
 
 End C17.
@@ -154,20 +154,9 @@ Print Assumptions C17_iso_v1.
 Print Assumptions C17_dump_load.
 Print Assumptions C17_dump_load_v1.
 Print Assumptions C17_reject_v1.
-Print Assumptions C17_reject_partial.
+Print Assumptions C17_reject.
 Print Assumptions C17_elementwise.
 Print Assumptions C17_elementwise_error.
-
-(* ---- the defect (F26): the faithful model does NOT reject ------------------------------------- *)
-Theorem C17_refuted_time_dash :
-  exists (iso : kind -> pstr -> option stamp) (strp : pstr -> pstr -> option stamp) p s,
-    iso KTime (iso_arg KTime s) = None /\ strp p s = None /\
-    load0 iso strp KTime None p s = RetNone /\
-    load0 iso strp KTime (Some (S "MyTime")) p s = AttrErr.
-Proof.
-  exists (fun _ _ => None), (fun _ _ => None), (S "%H-%M"), (S "zzz"). repeat split.
-Qed.
-Print Assumptions C17_refuted_time_dash.
 
 (* ---- the premises are satisfiable: a concrete pattern / value / oracle ------------------------ *)
 Definition ex_v : stamp := {| yr := 2022; mo := 1; dy := 3; hh := 15; mi := 45; ss := 0; us := 0; tz := None; fold := 0 |}.
@@ -183,5 +172,6 @@ Example C17_premises_hold :
   load1 ex_iso ex_strp KDateTime (Some (S "MyDT")) (Some (TzZone (S "UTC"))) [S "%Y"; S "%d/%m/%Y %H.%M"] (S "03/01/2022 15.45")
     = Loaded (mkv KDateTime (Some (S "MyDT")) (set_tz (TzZone (S "UTC")) ex_v)) /\
   load0 ex_iso ex_strp KDateTime None (S "%d/%m/%Y %H.%M") (S "2022-01-03T15:45:00") = Loaded (mkv KDateTime None ex_v) /\
-  load0 ex_iso ex_strp KDate None (S "%d/%m/%Y %H.%M") (S "junk") = ParseErr [S "%d/%m/%Y %H.%M"].
+  load0 ex_iso ex_strp KDate None (S "%d/%m/%Y %H.%M") (S "junk") = ParseErr [S "%d/%m/%Y %H.%M"] /\
+  load0 ex_iso ex_strp KTime (Some (S "MyTime")) (S "%H-%M") (S "zzz") = ParseErr [S "%H-%M"].
 Proof. repeat split. Qed.
